@@ -41,7 +41,8 @@ Uninit == [phase |-> "uninit",
            iso |-> EmptyTree, jol |-> EmptyTree, udf |-> EmptyTree,
            blob |-> [i \in {} |-> ""],
            grp |-> [i \in {} |-> 0],      \* inodes that were one link class before the last reopen
-           elt |-> NoElt, hyb |-> NoHyb, npvd |-> 1, gen |-> 0]
+           elt |-> NoElt, hyb |-> NoHyb, npvd |-> 1, gen |-> 0,
+           dirty |-> FALSE]    \* edits since the image was created/opened (not yet in a backing file)
 
 (***************************************************************************)
 (* Trees                                                                   *)
@@ -252,6 +253,22 @@ AddSymlinkF(st, ip, up, t) ==
           s2  == IF Given(up) THEN [s1 EXCEPT !.udf = Put(s1.udf, up, e)] ELSE s1
       IN Decide(why, s2)
 
+\* modify_file_in_place(fp, length, iso_path): replace the content of a file of an image that was
+\* opened from a (writable) file, in that file; the number of sectors must not change
+Sectors(n) == (n + 2047) \div 2048
+ModifyInPlaceF(st, p, b) ==
+    IF st.phase # "live" THEN Refuse("bad_state")
+    ELSE IF st.gen = 0 THEN [out |-> "unsupported", why |-> "no_backing_file", acc |-> st, alt |-> st]
+    \* with edits pending the backing file is not the image the object describes: out of scope
+    ELSE IF st.dirty THEN [out |-> "unsupported", why |-> "pending_edits", acc |-> st, alt |-> st]
+    ELSE IF p = Root \/ p \notin DOMAIN st.iso THEN Refuse("iso_missing")
+    ELSE IF st.iso[p].k = "dir" THEN Refuse("iso_wrong_kind")
+    ELSE IF st.iso[p].ino = 0 \/ st.iso[p].ino \notin DOMAIN st.blob THEN Refuse("iso_no_data")
+    ELSE IF st.blob[st.iso[p].ino] \notin DOMAIN BlobLen
+         THEN [out |-> "unsupported", why |-> "unknown_content", acc |-> st, alt |-> st]
+    ELSE IF Sectors(BlobLen[st.blob[st.iso[p].ino]]) # Sectors(BlobLen[b]) THEN Refuse("sector_count_changes")
+    ELSE Ok([st EXCEPT !.blob[st.iso[p].ino] = b])
+
 DuplicatePvdF(st) ==
     IF st.phase # "live" THEN Refuse("bad_state") ELSE Ok([st EXCEPT !.npvd = @ + 1])
 
@@ -284,7 +301,8 @@ SplitNames(st, names, next) ==
              s2  == [s1 EXCEPT !.blob = [j \in DOMAIN st.blob \cup {next} |-> IF j = next THEN st.blob[old] ELSE st.blob[j]],
                                !.grp  = [j \in DOMAIN st.blob \cup {next} |-> IF j = next THEN st.grp[old] ELSE st.grp[j]]]
          IN SplitNames(s2, names \ {n}, next + 1)
-EmptyShared(st) == {i \in DOMAIN st.blob : BlobLen[st.blob[i]] = 0 /\ Cardinality(NameRefs(st, i)) > 1}
+EmptyShared(st) == {i \in DOMAIN st.blob : st.blob[i] \in DOMAIN BlobLen /\ BlobLen[st.blob[i]] = 0
+                                             /\ Cardinality(NameRefs(st, i)) > 1}
 SplitEmpty(st) ==
     GC(SplitNames(st, UNION {NameRefs(st, i) : i \in EmptyShared(st)}, MaxIno(st) + 1))
 
@@ -292,9 +310,11 @@ SplitEmpty(st) ==
 ReopenF(st) ==
     IF st.phase # "live" THEN Refuse("bad_state")
     ELSE LET s0 == [st EXCEPT !.grp = [i \in DOMAIN st.blob |-> i]]   \* classes as written
-         IN Ok(SplitEmpty([s0 EXCEPT !.gen = @ + 1, !.cfg.level = InferredLevel(st)]))
+         IN Ok(SplitEmpty([s0 EXCEPT !.gen = @ + 1, !.cfg.level = InferredLevel(st), !.dirty = FALSE]))
 
-Step(st, a) ==
+Mutators == {"AddFp", "AddDir", "RmDir", "AddHardLink", "RmHardLink", "RmFile", "SetHidden", "ClearHidden",
+             "AddSymlink", "DuplicatePvd", "AddEltorito", "RmEltorito", "AddIsohybrid", "RmIsohybrid"}
+RawStep(st, a) ==
     CASE a.a = "New"          -> NewF(st, a.cfg, a.mode)
       [] a.a = "Close"        -> CloseF(st)
       [] a.a = "AddFp"        -> AddFpF(st, a.blob, a.iso, a.jol, a.udf)
@@ -307,9 +327,15 @@ Step(st, a) ==
       [] a.a = "ClearHidden"  -> HiddenF(st, a.ns, a.p, FALSE)
       [] a.a = "AddSymlink"   -> AddSymlinkF(st, a.iso, a.udf, a.t)
       [] a.a = "DuplicatePvd" -> DuplicatePvdF(st)
+      [] a.a = "ModifyInPlace" -> ModifyInPlaceF(st, a.p, a.blob)
       [] a.a \in ScheduleActs -> ScheduleF(st, a)
       [] a.a = "Reopen"       -> ReopenF(st)
       [] OTHER                -> [out |-> "unsupported", why |-> a.a, acc |-> st, alt |-> st]
+
+\* an accepted edit leaves changes that are not in the backing file yet
+MarkDirty(a, r) == IF a.a \in Mutators /\ r.out \in {"ok", "either"}
+                   THEN [r EXCEPT !.acc.dirty = TRUE, !.alt.dirty = TRUE] ELSE r
+Step(st, a) == MarkDirty(a, RawStep(st, a))
 
 (***************************************************************************)
 (* Invariants of the abstract image (checked on the model by TLC and, as   *)
